@@ -1550,7 +1550,9 @@ def compile_try_expression(compiler, expr, root, body, catchers, orelse, finalbo
     else:
         finalbody = compiler._compile_branch(finalbody)
         finalbody += finalbody.expr_as_stmt()
-        finalbody = finalbody.stmts
+        # The `finally` forms may compile to no statements at all, as
+        # in `(finally (do))`. Python requires a nonempty block.
+        finalbody = finalbody.stmts or [asty.Pass(expr)]
 
     returnable = Result(
         expr=asty.Name(expr, id=return_var.id, ctx=ast.Load()),
